@@ -37,7 +37,7 @@ try:
         return sh('go build -o zy-bin . && go build ./... && go build -tags verif ./...', cwd=wt)
     def demo():
         if os.path.exists(f'{mutdir}/demo.php'):
-            p = sh(f'timeout -s KILL 120 ./zy-bin {mutdir}/demo.php', cwd=wt)
+            p = sh(f'timeout -s KILL 120 ./zy-bin {mutdir}/demo.php 2>&1', cwd=wt)
             return p.stdout + (f'\n[exit {p.returncode}]' if p.returncode else '')
         for g in ('demo.go', 'demo_main.go'):
             if os.path.exists(f'{mutdir}/{g}'):
